@@ -12,7 +12,7 @@ Verdict(ev) ==
        (IF ElementIndependence(ev.T, ev.single, ev.same) THEN OK ELSE <<"C06", "ElementIndependence">>)
   ELSE IF ev.kind = "linear" THEN
        (IF Linearity(ev.obs, ev.obs1, ev.obs2, ev.a, ev.b, TolRe) THEN OK ELSE <<"C05", "Linearity">>)
-  ELSE (IF Superposition(ev.whole, ev.parts, TolSame * 4) THEN OK ELSE <<"C05", "Superposition">>)
+  ELSE (IF Superposition(ev.whole, ev.parts, TolRe) THEN OK ELSE <<"C05", "Superposition">>)
 BadIdx == {i \in 1..Len(Trace) : Verdict(Trace[i])[1] # "ok"}
 ASSUME PrintT(<<"validated", Len(Trace), "rejected", Cardinality(BadIdx)>>)
 ASSUME \A i \in BadIdx : LET v == Verdict(Trace[i]) IN
